@@ -222,7 +222,7 @@ func c09Families(c *Ctx) {
 		add("multipartite", 5, 5, 5, 5, 5, 5)
 		add("cycle", 44)
 		add("cycle", 45)
-		add("cliques", 20, 5)
+		add("cliques", 6, 5)
 		add("hypercube", 6)
 	}
 	c.parFor(int64(len(cases)), 1, func(lo, hi int64) {
@@ -239,4 +239,164 @@ func c09Families(c *Ctx) {
 		}
 	})
 	c.SetCount("families_with_known_invariants_cases", int64(len(cases)))
+}
+
+// c09Irregular: fixed pseudo-random graphs with 10..26 vertices (an LCG per graph; a deterministic family, not a
+// sample): no reference values at this size, but the results must be consistent with each other and with their
+// witnesses - the colouring returned with the chromatic number is proper and uses exactly that many colours,
+// IsKColorable agrees with it at chi-1, chi and chi+1, clique number <= chromatic number, the degeneracy order is
+// valid and chi <= degeneracy+1, every listed maximal clique is a maximal clique and the largest has CliqueNumber vertices.
+type c09IrrCase struct {
+	N    int    `json:"n"`
+	P    int    `json:"edge_probability_percent"`
+	Seed uint64 `json:"seed"`
+	Rep  string `json:"rep"`
+}
+
+func buildIrr(ic c09IrrCase) *EG {
+	g := &EG{N: ic.N}
+	x := ic.Seed*2862933555777941757 + 3037000493
+	for j := 1; j < ic.N; j++ {
+		for i := 0; i < j; i++ {
+			x = x*6364136223846793005 + 1442695040888963407
+			if int((x>>33)%100) < ic.P {
+				g.Edges = append(g.Edges, [2]int{i, j})
+			}
+		}
+	}
+	return g
+}
+
+func evalC09Irr(ic c09IrrCase) *Failure {
+	g := buildIrr(ic)
+	n := g.N
+	mk := func(fn, cl, what string) *Failure {
+		return &Failure{Class: "invariants/" + fn + "/" + cl + "/irregular", What: fmt.Sprintf("%s on %s lcg-graph(n=%d, p=%d%%, seed %d): %s", fn, ic.Rep, n, ic.P, ic.Seed, what), Kind: "c09-irregular", Replay: ic}
+	}
+	lg := libGraphFromEG(g, ic.Rep)
+	nb := g.adjacency()
+	adj := func(a, b int) bool {
+		i := sort.SearchInts(nb[a], b)
+		return i < len(nb[a]) && nb[a][i] == b
+	}
+	var f *Failure
+	msg, p := try(func() {
+		chi, col := graph.ChromaticNumber(lg)
+		if !egProper(g, col) {
+			f = mk("ChromaticNumber", "witness-not-a-proper-colouring", fmt.Sprint(col))
+			return
+		}
+		if !usesExactly(col, chi) {
+			f = mk("ChromaticNumber", "witness-does-not-use-the-reported-number-of-colours", fmt.Sprintf("reported %d, witness %v", chi, col))
+			return
+		}
+		for k := chi - 1; k <= chi+1; k++ {
+			ok, kc := graph.IsKColorable(lg, k)
+			if ok != (k >= chi) {
+				f = mk("IsKColorable", "disagrees-with-ChromaticNumber", fmt.Sprintf("ChromaticNumber = %d but IsKColorable(%d) = %v", chi, k, ok))
+				return
+			}
+			if ok && (!egProper(g, kc) || maxOf(kc) >= k) {
+				f = mk("IsKColorable", "witness-not-a-proper-colouring", fmt.Sprintf("k=%d", k))
+				return
+			}
+		}
+		w := graph.CliqueNumber(lg)
+		if w > chi {
+			f = mk("CliqueNumber", "exceeds-chromatic-number", fmt.Sprintf("clique number %d, chromatic number %d", w, chi))
+			return
+		}
+		d, order := graph.Degeneracy(lg)
+		if !isPerm(order, n) {
+			f = mk("Degeneracy", "order-not-a-permutation", fmt.Sprint(order))
+			return
+		}
+		if chi > d+1 || w > d+1 {
+			f = mk("Degeneracy", "inconsistent-with-colouring", fmt.Sprintf("degeneracy %d, chromatic number %d, clique number %d", d, chi, w))
+			return
+		}
+		ch := make(chan []int, 256)
+		go func() {
+			defer func() { recover() }()
+			graph.AllMaximalCliques(lg, ch)
+		}()
+		best := 0
+		for cl := range ch {
+			if f != nil {
+				continue
+			}
+			in := map[int]bool{}
+			for _, v := range cl {
+				in[v] = true
+			}
+			for i := range cl {
+				for j := 0; j < i; j++ {
+					if !adj(cl[i], cl[j]) {
+						f = mk("AllMaximalCliques", "not-a-clique", fmt.Sprint(cl))
+					}
+				}
+			}
+			for v := 0; v < n && f == nil; v++ {
+				if in[v] {
+					continue
+				}
+				all := true
+				for _, u := range cl {
+					if !adj(u, v) {
+						all = false
+						break
+					}
+				}
+				if all {
+					f = mk("AllMaximalCliques", "not-maximal", fmt.Sprintf("%v can be extended by %d", cl, v))
+				}
+			}
+			if len(cl) > best {
+				best = len(cl)
+			}
+		}
+		if f == nil && best != w {
+			f = mk("CliqueNumber", "differs-from-largest-listed-clique", fmt.Sprintf("CliqueNumber = %d, largest maximal clique listed has %d vertices", w, best))
+		}
+	})
+	if p {
+		return mk("any", "panic", msg)
+	}
+	return f
+}
+
+func c09Irregular(c *Ctx) {
+	var cases []c09IrrCase
+	seeds := 60
+	if c.Thorough() {
+		seeds = 400
+	}
+	for n := 10; n <= 26; n++ {
+		for _, p := range []int{20, 35, 50, 65} {
+			if n > 22 && p > 50 {
+				continue
+			}
+			for s := 0; s < seeds; s++ {
+				rep := "dense"
+				if s%2 == 1 {
+					rep = "sparse"
+				}
+				cases = append(cases, c09IrrCase{N: n, P: p, Seed: uint64(n*1000 + p*10 + s), Rep: rep})
+			}
+		}
+	}
+	c.parFor(int64(len(cases)), 4, func(lo, hi int64) {
+		for _, ic := range cases[lo:hi] {
+			ic := ic
+			t0 := time.Now()
+			c.CheckTimed(600*time.Second, func() *Failure { return evalC09Irr(ic) }, func() *Failure {
+				return &Failure{Class: "invariants/any/does-not-terminate/irregular", What: fmt.Sprintf("%v still running after 600 s", ic), Kind: "c09-irregular", Replay: ic, NoRepro: true}
+			})
+			if d := time.Since(t0); d > 5*time.Second {
+				c.Note("slow irregular case %v: %v", ic, d)
+			}
+			c.Nontrivial(1)
+		}
+	})
+	c.SetCount("irregular_consistency_cases", int64(len(cases)))
 }
